@@ -327,6 +327,44 @@ pub fn run_c04(rep: &mut Report, rng: &mut Rng, thorough: bool) {
             check_mutant(rep, f, &m, &format!("bitflip@{bit}"), true);
             rep.evaluations += 1;
         }
+        // a corrupt symbol that ends exactly at the end of the input: flips in the LZMA payload of an LZIP member that
+        // end in "dist overflow" (`Other`), then EVERY cut of that mutant.  Short cuts are `UnexpectedEof`; from the
+        // cut that holds the last byte the failing symbol needs the answer is `Other` - although the normalisation
+        // that would follow asks for a byte that is not there (`LZMADecoder::decode` returns the error of `repeat`
+        // without normalising; the reader model must do the same, `Lzma.rawFinish`).
+        if f.fmt == "lzip" && f.bytes.len() > 26 && f.bytes.len() <= 4096 {
+            let want = if thorough { 40 } else { 10 };
+            let mut found = 0;
+            let lo = 6 * 8;
+            let hi = (f.bytes.len() - 20) * 8;
+            for _ in 0..want * 6 {
+                if found >= want || hi <= lo {
+                    break;
+                }
+                let bit = lo + rng.below((hi - lo) as u64) as usize;
+                let mut m = f.bytes.clone();
+                m[bit / 8] ^= 1 << (bit % 8);
+                if !matches!(real_decode(f.fmt, false, &m, f.data.len() * 2 + 4096), Outcome::Err(std::io::ErrorKind::Other, _)) {
+                    continue;
+                }
+                found += 1;
+                rep.count("flip-then-cut.mutants");
+                let mut first_other = None;
+                for k in 6..m.len() {
+                    if first_other.is_none() && matches!(real_decode(f.fmt, false, &m[..k], f.data.len() * 2 + 4096), Outcome::Err(std::io::ErrorKind::Other, _)) {
+                        first_other = Some(k);
+                    }
+                    // (cuts far behind the failing symbol all behave alike: keep 24 of them)
+                    if let Some(k0) = first_other {
+                        if k > k0 + 24 {
+                            break;
+                        }
+                    }
+                    check_mutant(rep, f, &m[..k], &format!("bitflip@{bit}+cut@{k}"), true);
+                    rep.evaluations += 1;
+                }
+            }
+        }
         // byte substitutions, deletions, insertions, duplications, swaps, truncations
         let n_other = if thorough { 600 } else { 120 };
         for _ in 0..n_other {
